@@ -64,6 +64,19 @@ def check_instance(cls, recipe, tag, rec=None, sample=None, expected_consts=None
                             "parses back")
         if not _eq(back[name], o):
             raise Violation(f"C12:roundtrip-differs:{name}", f"{tag}: {_diff(o, back[name])}", "equal to the original")
+    # the forms written to a file and read with parse_file (what harvesters, packers and manifests do)
+    import tempfile
+    for name, suffix in (("bytes", ".json"), ("yaml", ".yaml")):
+        data = forms[name] if isinstance(forms[name], bytes) else forms[name].encode("utf-8")
+        with tempfile.NamedTemporaryFile(suffix=suffix, dir=compat.scratch_root(), delete=True) as fh:
+            fh.write(data)
+            fh.flush()
+            try:
+                bf = cls.parse_file(fh.name)
+            except Exception as e:  # noqa: BLE001
+                raise Violation(f"C12:parse-back-raises:{name}:file", f"{tag}: {type(e).__name__}: {str(e)[:300]}", "parses back")
+        if not _eq(bf, o):
+            raise Violation(f"C12:roundtrip-differs:{name}:file", f"{tag}: {_diff(o, bf)}", "equal to the original")
     try:
         b2 = cls.parse_obj(forms["json_dict"])
     except Exception as e:  # noqa: BLE001
